@@ -43,7 +43,10 @@ func NewBinaryNode(values ...interface{}) ItemNode {
 		} else if v, ok := value.(string); ok {
 			if strings.HasPrefix(v, "0b") {
 				// value is a binary string
-				vAsInt64, _ := strconv.ParseInt(v, 0, 0)
+				vAsInt64, err := strconv.ParseInt(v, 0, 0)
+				if err != nil {
+					panic("invalid binary string")
+				}
 				nodeValues = append(nodeValues, int(vAsInt64))
 			} else {
 				// value is a variable
